@@ -41,6 +41,14 @@ def run(ctx):
     for sc in W.random_big(rnd, 200 if q else 2000, [1, 2, 3, 5, 10, 25, 50]):
         S.append(dict(sc, api="bulkwalk", cut=rnd.choice(cuts + ["seed:%d" % rnd.randrange(10 ** 6)]),
                       proto=rnd.choice(["v2c", "v2c", "v2c"] + W.PROTO_SAMPLE)))
+    # volatile objects: every binding served carries another value (two roots answered with one instance under two values)
+    for sc in scs:
+        if len(sc["roots"]) >= 2 and rnd.random() < (0.05 if q else 0.2):
+            S.append(dict(sc, bulk=rnd.choice([1, 2, 3, 4]), api="bulkwalk", cut=rnd.choice(cuts), proto="v2c", volatile=True))
+    for vsc in (dict(db=[[2, 1], [2, 2], [3, 1]], roots=[[1], [2]]), dict(db=[[3, 1], [3, 2]], roots=[[3], [1], [2]])):
+        for m in (1, 2, 3, 10):
+            S.append(dict(vsc, bulk=m, api="bulkwalk", cut=rnd.choice(cuts), proto=rnd.choice(["v2c"] + W.PROTO_SAMPLE), volatile=True))
+            S.append(dict(vsc, bulk=m, api="py.bulkwalk", cut="full", proto="v2c", volatile=True))
     # max-repetitions whose top bit falls on an octet boundary (128, 200, 255): an INTEGER like any other
     for m in (127, 128, 200, 255):
         S.append(dict(db=[[1, k] for k in range(1, 12)] + [[2, 1]], roots=[[1]], bulk=m, api="bulkwalk", cut="full", proto="v2c"))
